@@ -210,7 +210,8 @@ CHECKS = [
           'and must give the header\'s merkle root / the root of the current block hashes; blocks of 1..8 and 200..203 '
           'transactions.  K2: the full system under the gate scheduler with proofs requested before, inside and after '
           'reorg windows and header / tx-hash reads of in-flight requests postponed past the reorg (for a full timer round '
-          'or only until the reorg has been processed); at quiescence every header '
+          'or only until the reorg has been processed); every answer given during a story must be consistent with one chain '
+          'the daemon was on; at quiescence every header '
           'proof (height <= cp <= tip) and every transaction proof verifies against the current chain.',
   'note': 'Hashes are concrete in C11 so that the real double_sha256 can be folded independently (C12 covers the '
           'functions with symbolic leaves).  Stubs as C07.',
